@@ -10,6 +10,7 @@ import (
 	"os"
 	"path/filepath"
 	"sort"
+	"syscall"
 )
 
 var c06Formats = []string{"fasta", "fastq", "sam", "samh", "bed", "newick"}
@@ -520,6 +521,31 @@ func c06Files(c *Ctx) {
 								if os.WriteFile(other, x, 0o644) == nil {
 									names["a file whose name ends in "+fmt.Sprintf("%q", e)] = other
 								}
+							}
+						}
+						// a named pipe that another part of the program (here: a goroutine) writes the same bytes into — what a
+						// shell's <(zcat x.gz) or a "mkfifo" hand-over gives: a path that is not a regular file (its size is 0)
+						if fifo := filepath.Join(sub, "pipe"+tgt.ext); k.Idx%4 == 0 && syscall.Mkfifo(fifo, 0o600) == nil {
+							if data, err := os.ReadFile(tgt.path); err == nil {
+								done := make(chan struct{})
+								go func() {
+									defer close(done)
+									if w, err := os.OpenFile(fifo, os.O_WRONLY, 0); err == nil {
+										w.Write(data)
+										w.Close()
+									}
+								}()
+								got, over := collect(cd.file(fifo), len(x)+8)
+								// (if File never opened the pipe the writer is still waiting for a reader: let it go)
+								if rd, err := os.OpenFile(fifo, os.O_RDONLY|syscall.O_NONBLOCK, 0); err == nil {
+									<-done
+									rd.Close()
+								}
+								if over || !sameTrace(got, ref) {
+									k.Input("path", fifo)
+									k.Failf("file-path-variant", "%s.File on a named pipe carrying the file's bytes differs from Reader on them:\n File   %s\n Reader %s", f, traceString(got), traceString(ref))
+								}
+								k.Count("file_named_pipes", 1)
 							}
 						}
 						for what, p := range names {
